@@ -86,6 +86,48 @@ def replay_double_signal():
         shutil.rmtree(d, ignore_errors=True)
 
 
+def replay_defaults():
+    """the real binary on a minimal configuration (only source_dir and one macro) and on a lock without the key"""
+    import os
+    import re as _re
+    import shutil
+    import subprocess
+    import tempfile
+    binary = native.build_binary("debug")
+    d = tempfile.mkdtemp(prefix="blv-def-", dir=os.environ.get("BLV_SCRATCH") or "/var/tmp")
+    try:
+        os.makedirs(os.path.join(d, "src"))
+        with open(os.path.join(d, "src", "a.rs"), "w") as f:
+            f.write('fn f(){ info!("[ref: 7] a"); info!(k = 1; "b"); }\n')
+        with open(os.path.join(d, "src", "a.txt"), "w") as f:
+            f.write('fn f(){ info!("c"); }\n')
+        with open(os.path.join(d, "Breadlog.yaml"), "w") as f:
+            f.write("source_dir: src\nrust:\n  log_macros:\n    - module: log\n      name: info\n")
+        problems = []
+        p = subprocess.run([binary, "--config", os.path.join(d, "Breadlog.yaml")], stdout=subprocess.PIPE, stderr=subprocess.STDOUT, text=True)
+        a = open(os.path.join(d, "src", "a.rs")).read()
+        if '"[ref: 8] b"' not in a:
+            problems.append("omitted `structured`/scan path did not give the message style with id 8: %r" % a)
+        if open(os.path.join(d, "src", "a.txt")).read().count("ref") != 0:
+            problems.append("omitted `extensions` edited a .txt file")
+        lock = os.path.join(d, "Breadlog.lock")
+        if not os.path.exists(lock) or not _re.search(r"next_reference_id:\s*9", open(lock).read()):
+            problems.append("omitted `use_cache` did not write the lock with 9")
+        # a lock without the key cannot be parsed: the scan is used
+        with open(lock, "w") as f:
+            f.write("# nothing\n{}\n")
+        with open(os.path.join(d, "src", "b.rs"), "w") as f:
+            f.write('fn g(){ info!("d"); }\n')
+        subprocess.run([binary, "--config", os.path.join(d, "Breadlog.yaml")], stdout=subprocess.PIPE, stderr=subprocess.STDOUT, text=True)
+        b = open(os.path.join(d, "src", "b.rs")).read()
+        if '"[ref: 9] d"' not in b:
+            problems.append("a lock without next_reference_id was not ignored: %r" % b)
+        return {"reproduced": bool(problems), "problems": problems,
+                "why": "; ".join(problems) if problems else "the real binary behaves as the guide says on the minimal configuration"}
+    finally:
+        shutil.rmtree(d, ignore_errors=True)
+
+
 def replay_signal(missing):
     """send the unregistered signal to the real binary while it scans a large tree"""
     import os
@@ -130,6 +172,11 @@ def replay(prop, r):
             return replay_double_signal()
         except Exception as e:  # noqa
             return {"reproduced": False, "why": "signal replay failed: %r" % (e,)}
+    if kind == "defaults":
+        try:
+            return replay_defaults()
+        except Exception as e:  # noqa
+            return {"reproduced": False, "why": "defaults replay failed: %r" % (e,)}
     if r.get("name") == "m-c04-no-mutating-calls":
         return {"reproduced": True, "why": "structural fact of the compiled call graph (no input needed): " + str(w.get("why")),
                 "calls": w.get("calls")}
